@@ -1240,7 +1240,27 @@ def check_atom(inp):
     if exp is None:
         return None
     got = bool(build_mask(e)(x, **kw))
-    return None if got == exp else {'observed': got, 'expected': exp}
+    if got != exp:
+        return {'observed': got, 'expected': exp}
+    # the same constructor with its collection argument given as another kind of value: a set, a tuple, and - where
+    # there is one element - the bare value, which every one of these constructors accepts (seed C18-6: a bare figure
+    # given as text was iterated character by character)
+    guard, a = (e[1], e[2]) if e[0] == 'gt' else (None, e)
+    k = a[0]
+    if k in PUBLIC and PUBLIC[k] != 'ab':
+        from musiclang.transform import Mask
+        vals = _args(PUBLIC[k], a[1:])[0]
+        variants = {'tuple': tuple(vals), 'set': set(vals)}
+        if len(vals) == 1:
+            variants['bare value'] = vals[0]
+        for how, arg in variants.items():
+            m = getattr(Mask, k)(arg)
+            if guard is not None:
+                m = build_mask(['lvl', guard]) > m
+            g = bool(m(x, **kw))
+            if g != exp:
+                return {'observed': {f'argument as {how}': g}, 'expected': exp}
+    return None
 
 
 ORACLES = {'dispatch': check_dispatch, 'nomask': check_nomask, 'rhythm': check_rhythm, 'pipeline': check_pipeline,
@@ -1361,6 +1381,22 @@ def oracle(ctx):
             e = ['inv', e]
         inp = {'mask': e, 'elem': el, 'kwargs': {k: str(v) for k, v in kw.items()}}
         run_oracle(ctx, 'atom', inp, sig_atom, f'atom:{e[0] if e[0] != "gt" else e[2][0]}')
+    # 3b. every single value of the text / integer valued chord masks against chords showing every value
+    figs = list(gen.FIGS)
+    for f1 in figs:
+        for f2 in figs:
+            c = g_chord(rng)
+            c[1][1] = f2
+            for neg in (False, True):
+                m = ['gt', 'chord', ['ChordExtensionIn', [f1]]]
+                inp = {'mask': ['inv', m] if neg else m, 'elem': c, 'kwargs': {}}
+                run_oracle(ctx, 'atom', inp, sig_atom, 'atom:ChordExtensionIn:single')
+    for m1 in gen.MODES:
+        for m2 in gen.MODES[:5]:
+            c = g_chord(rng)
+            c[1][3] = m2
+            inp = {'mask': ['gt', 'chord', ['ModeIn', [m1]]], 'elem': c, 'kwargs': {}}
+            run_oracle(ctx, 'atom', inp, sig_atom, 'atom:ModeIn:single')
     # 4. random
     for _ in range(ctx.n(1000, 12000)):
         t = g_T(rng)
